@@ -10,9 +10,10 @@ observably the same set for ever (`Props/C19.lean: obs_equiv_forever`).
 -/
 import Datacake.Model.Envelope
 import Datacake.Props.C12b
+import Datacake.Props.C19
 
 namespace Datacake.C19b
-open Datacake.Rpc Datacake.Exchange Datacake.Envelope Datacake.C12 Datacake.C12b
+open Datacake.Rpc Datacake.Exchange Datacake.Envelope Datacake.C12 Datacake.C12b Datacake.OrSwot
 
 theorem pad8_lt (n : Nat) : pad8 n < 8 := by unfold pad8; omega
 theorem pad8_aligned (n : Nat) : (n + pad8 n) % 8 = 0 := by unfold pad8; omega
@@ -120,6 +121,23 @@ theorem misplaced_envelope_refused (body : List Nat) (h : (body.length - ENV_FIX
   split
   · rfl
   · first | rfl | rw [if_pos h]
+
+/-- **received_state_is_the_senders**: with the one assumption that is left - the archive of a set
+decodes to a set observably equal to the one that was encoded (`hcodec`; compared on every run, not
+proved) - the state the asking node ends up with after the whole way (serialise, envelope, frame, any
+chunking, frame check, checked envelope reading, decode) is observably the sender's, and carries the
+sender's change stamp: same answers to every query, same decisions for every further operation, for
+ever (`C19.ObsEq` is what `Props/C19.lean` shows to be preserved by every operation). -/
+theorem received_state_is_the_senders (enc : OrSwot → List Nat) (dec : List Nat → Option OrSwot)
+    (hcodec : ∀ s, ∃ s', dec (enc s) = some s' ∧ C19.ObsEq s s')
+    (s : OrSwot) (ts lu : Nat) (respCuts : List Nat)
+    (hts : ts < 18446744073709551616) (hlu : lu < 18446744073709551616) (hl : (enc s).length + 32 ≤ 2147483648) :
+    ∃ s', ((getState ts lu (enc s) respCuts).bind (fun r => (dec r.2.2).map (fun x => (r.2.1, x)))) = some (lu, s') ∧
+      C19.ObsEq s s' := by
+  obtain ⟨s', hd, ho⟩ := hcodec s
+  refine ⟨s', ?_, ho⟩
+  rw [getState_exact ts lu (enc s) respCuts hts hlu hl]
+  simp [hd]
 
 /-! ### non-vacuity -/
 
